@@ -23,4 +23,12 @@ BIN="$(echo "$PROP" | tr 'A-Z' 'a-z')"
 rm -f "$CARGO_TARGET_DIR/debug/$BIN"   # never fall back to a stale binary when the build fails
 ( cd "$H" && cargo build --offline --bin "$BIN" 2>&1 | grep -E "^(error|warning: unused)|^\s+-->|Finished" | head -30 )
 [ -x "$CARGO_TARGET_DIR/debug/$BIN" ] || { echo "build failed"; exit 2; }
+if grep -q "^$PROP\$" /verif/scripts/needs_repo_bins.txt 2>/dev/null; then
+  # checks that drive real repository binaries: build them from THIS tree
+  BT="/tmp/rvtarget-$NAME-bins"
+  if [ ! -d "$BT" ] && [ -d /verif/target/repo-bins/debug ]; then mkdir -p "$BT"; cp -a /verif/target/repo-bins/debug "$BT/debug" 2>/dev/null; fi
+  ( cd "$TREE" && cargo build --offline -p ripd -p rip-cli --bins --target-dir "$BT" 2>&1 | grep -E "^error|Finished" | head -10 )
+  [ -x "$BT/debug/ripd" ] && [ -x "$BT/debug/rip" ] || { echo "repo bins build failed"; exit 2; }
+  export C19_RIPD_BIN="$BT/debug/ripd" C19_RIP_BIN="$BT/debug/rip" C20_RIP_BIN="$BT/debug/rip"
+fi
 cd "$R" && exec "$CARGO_TARGET_DIR/debug/$BIN" "$@"
